@@ -13,10 +13,18 @@ Oracle (directly on the real observations, after every burst, once the hub is qu
 Correspondence: evaluator tie (tiny Lean evaluator == real evaluator on the final real values), scheduler tie
 (model's quiescent values == real quiescent values for every determined port), quiescence itself.
 """
+import asyncio
 import json
+import signal
 
 from harness import hub_c01
-from harness.core import Failure, Prop
+from harness.core import Broken, Failure, Prop
+
+
+class HubStuck(Exception):
+    """The real hub keeps the event loop busy without letting (virtual) time pass."""
+
+STUCK_AFTER_S = 15      # real seconds; a normal case takes a few milliseconds
 
 LATS = [0, 0, 1, 7, 20, 120]
 OP2 = {'ADD': 'add', 'SUB': 'sub', 'MUL': 'mul', 'GT': 'gt', 'EQ': 'eq', 'AND': 'and', 'OR': 'or', 'MIN': 'min',
@@ -349,8 +357,39 @@ class C01(Prop):
         return out, 'ok'
 
     # ------------------------------------------------------------------------------------------------------ run
+    def _run_real(self, case):
+        """Runs the case on the real hub under a real-time watchdog: a hub that spins without ever becoming quiescent
+        (possible only after a behaviour change of the scheduler) must not hang the check."""
+        def on_alarm(signum, frame):
+            raise HubStuck()
+        loop = self.hub.loop
+        old = signal.signal(signal.SIGALRM, on_alarm)
+        signal.setitimer(signal.ITIMER_REAL, STUCK_AFTER_S)
+        try:
+            return loop.run_until_complete(self.hub.run(case))
+        except HubStuck:
+            signal.setitimer(signal.ITIMER_REAL, STUCK_AFTER_S)
+            try:        # cancel everything; the scenario coroutine's own `finally` removes the ports
+                tasks = asyncio.all_tasks(loop)
+                for t in tasks:
+                    t.cancel()
+                loop.run_until_complete(asyncio.gather(*tasks, return_exceptions=True))
+                left = list(self.hub.core_ports.get_all())
+                for p in left:
+                    loop.run_until_complete(p.remove(persisted_data=False))
+            except HubStuck:
+                raise Broken('the real hub live-locked and could not be torn down') from None
+            return None
+        finally:
+            signal.setitimer(signal.ITIMER_REAL, 0)
+            signal.signal(signal.SIGALRM, old)
+
     def run_case(self, case, driver):
-        obs = self.hub.loop.run_until_complete(self.hub.run(case))
+        obs = self._run_real(case)
+        if obs is None:
+            return (Failure('correspondence', 'the real hub live-locked: it kept evaluating / polling without letting '
+                            f'time pass for {STUCK_AFTER_S} s of real time (the model becomes quiescent)'),
+                    {'tags': ['hub-stuck'], 'key': None, 'observed': None})
         tags = set()
         fail = None
         ports = case['ports']
